@@ -153,6 +153,19 @@ CLAIMS.update({
                 note="level other: Alternative / Next selection (ElseIf / Union streams + update_conclusion's de-duplication) and "
                      "the application of the selected conclusions by the descriptor are covered by the bounded rule-tree "
                      "stand-ins only (random trees against a recursive reference reading), not proved; assumption RT"),
+    'C14': dict(level='other', text="Function contracts of the registry mechanism, each proved from the current source: symbol(cls) "
+                "installs hybrid_new as __new__ (and nothing else) with the class's own __new__ or object.__new__ as allocator; "
+                "hybrid_new registers nothing and allocates nothing in symbolic mode and calls "
+                "instantiate_class_and_update_cache exactly once otherwise, forwarding the arguments; "
+                "instantiate_class_and_update_cache allocates exactly one instance and inserts exactly that instance once, "
+                "under the class being constructed, into the flat store; get_cache_keys_for_class_ returns exactly the "
+                "registered classes that are subclasses of the requested type, each once (0..3 registered keys, symbolic "
+                "class relations).",
+                note="level other: 'for every history' is the induction over construction histories (A9) composed with CPython's "
+                     "type.__call__ protocol (A2: __init__ is skipped when __new__ returns a non-instance; subclasses inherit "
+                     "__new__); IndexedCache's flat store and the no-domain branch of Variable._evaluate__ are covered by the "
+                     "bounded registry-history stand-in (random histories of concrete / symbolic construction, clearing, "
+                     "queries over a three-class hierarchy), not proved"),
 })
 NOT_APPLICABLE = {}
 
@@ -169,6 +182,10 @@ ORACLES = {
     'C01': [_oracle('single-variable, and/or/not', 250, 3000, nvars=1, depth=3, neg=True, nested_neg=True)],
     'C02': [_oracle('two variables, join conditions', 150, 2000, nvars=2, depth=2, neg=False, vocab=['cmp', 'name']),
             _oracle('three variables', 40, 600, nvars=3, depth=2, neg=False, vocab=['cmp'], n=2),
+            _oracle('two / three variables, a proper subset selected (set of projected rows)', 150, 2000, nvars=2, depth=3, neg=False,
+                    vocab=['cmp', 'name'], project=True),
+            _oracle('three variables, a proper subset selected', 60, 800, nvars=3, depth=2, neg=False, vocab=['cmp', 'name'], n=2,
+                    project=True),
             _oracle('selected variables and attribute expressions, one row per assignment', 100, 1500, kind='select')],
     'C03': [_oracle('nested negation, one variable', 200, 3000, nvars=1, depth=3, neg=True, nested_neg=True),
             _oracle('nested negation, two variables', 100, 1500, nvars=2, depth=2, neg=True, nested_neg=True)],
@@ -196,13 +213,19 @@ ORACLES = {
     'C12': [_oracle('rule trees: refinement / alternative nested two levels, six shapes', 250, 4000, kind='rdr'),
             _oracle('random rule trees: up to 5 rules, several refinements / alternatives per block, nested two levels', 300, 5000,
                     kind='rdrtree', rules=5, depth=2),
-            _oracle('random rule trees: up to 7 rules nested three levels', 100, 3000, kind='rdrtree', rules=7, depth=3, n=6)],
+            _oracle('random rule trees: up to 7 rules nested three levels', 100, 3000, kind='rdrtree', rules=7, depth=3, n=6),
+            _oracle('random rule trees over two variables (result cache on, the default)', 200, 4000, kind='rdrtree', nvars=2, rules=4,
+                    depth=2, n=3),
+            _oracle('random rule trees over two variables (result cache off)', 200, 4000, kind='rdrtree', nvars=2, rules=5, depth=3,
+                    n=3, caching=False)],
     'C14': [_oracle('registry histories: concrete / symbolic construction, clearing, no-domain queries', 200, 3000, kind='registry')],
     'C13': [_oracle('predicate form vs explicit query, mixed-type domains, positional and keyword fields', 250, 4000, kind='predform', allow_empty=True)],
     'C04': [_oracle('histories of full / partial / aborted evaluations (result cache on)', 200, 3000, kind='history'),
             _oracle('histories (result cache off)', 100, 1500, kind='history', caching=False),
             _oracle('histories over a domain that lists an object twice', 100, 1500, kind='history', duplicates=True)],
-    'C05': [_oracle('result cache on vs off, first evaluation and re-evaluation', 250, 4000, kind='cache')],
+    'C05': [_oracle('result cache on vs off, first evaluation and re-evaluation', 250, 4000, kind='cache'),
+            _oracle('rule trees over two variables, result cache on (reference = cache-off reading)', 150, 3000, kind='rdrtree',
+                    nvars=2, rules=4, depth=2, n=3)],
     'C16': [_oracle('flatten, parent selected, no condition', 40, 400, kind='flatten', with_cond=False, select_parent=True),
             _oracle('flatten, parent selected, condition', 40, 400, kind='flatten', with_cond=True, select_parent=True),
             _oracle('flatten only, condition', 40, 400, kind='flatten', with_cond=True, select_parent=False, falsy=True)],
